@@ -101,12 +101,16 @@ CLAIMS.update({
     text="Theorems (Props/C07, Prog.interleave: any number of processes, any schedule, calls atomic): every bucket is at "
          "all times its initial bytes followed by WHOLE framed records in append order - for any mix of index inserts, "
          "removals, lookups, listings, content removals and writer phases - so no reader decodes a partial or spliced "
-         "record and no append is lost; non-publishing operations keep the content store valid; every call stays inside "
+         "record and no append is lost (with the record codec proved: conc_reads_whole_records_cacache); the content store "
+         "stays valid under every interleaving of any number of WHOLE WRITERS (mapped or plain, keyed or by address, both "
+         "flavours) and quiet operations (inserts, removals, remove_hash, remove_fully, clear, link commits, all reads) - "
+         "a rely/guarantee proof over private temp files (conc_content_valid, Lemmas/Concurrent); every call stays inside "
          "the cache. Tie: 6-12 real processes (sync+async API, both runtimes) hammering one cache with read/record/content "
          "monitors; strace check that an index insert is ONE write(2) on an O_APPEND descriptor (also multi-MiB).",
-    note=TB + "`_partial`: ContentValid under concurrent PUBLISHING writers needs a rely/guarantee argument about private "
-         "temp files; proved for one writer against all crashes/faults, validated for concurrent writers by the stress leg. "
-         "Kernel atomicity of write(O_APPEND) and rename is assumed. Full serializability of 3+ operations is not proved.",
+    note=TB + "the interleaving semantics takes one filesystem call as the atomic step and has no faults inside an "
+         "interleaving (crashes/faults of a single writer: C03/C13); kernel atomicity of write(O_APPEND) and rename is "
+         "assumed; temp names are modelled as a monotone counter (tempfile's random names: fresh by retry-on-EEXIST). "
+         "Serializability is proved per bucket (append order) and per content address, not as one global order.",
     technique="Lean 4 proof (invariants over all interleavings) + multi-process stress + syscall skeleton"),
  "C08": dict(
     text="Theorems (Props/C08): the decision logic of commit stated outright (integrity mismatch => integrity error, "
